@@ -178,6 +178,13 @@ def task(arg):
                     for ci, (how, n) in enumerate(zip(assign, seq)):
                         if late and ci == 1:
                             attach_logger(sim, log)
+                        if arg.get("reattach") and ci == 1:
+                            # schedule-neutral housekeeping between two calls: every observer is attached
+                            # again under its own name (the same objects)
+                            if sim.default_logger is not None:
+                                sim.default_logger = sim.default_logger
+                            for iv, r in recs.items():
+                                sim.file_manager.attach_observer(f"rec{iv}", r)
                         if arg.get("restored") and ci == 1:
                             # the documented restart: a new object from the dictionary, calculator re-attached
                             calc = sim.atoms.calc
@@ -261,6 +268,7 @@ def run(tier, seed):
                 args.append({"driver": drv, "seed": s, "lengths": [L]})
         # default observers without a logger / with other cadences (also negative: one-shot)
         args.append({"driver": drv, "seed": seeds[0], "lengths": [2], "late_logger": True})
+        args.append({"driver": drv, "seed": seeds[0], "lengths": [2], "reattach": True})
         if drv != "ForceBias":  # the force-bias drivers offer no from_dict
             args.append({"driver": drv, "seed": seeds[0], "lengths": [2], "restored": True})
             if tier == "thorough":
